@@ -19,16 +19,22 @@ Theorem C36_child_except_known : forall p q parent_ops child_ops,
 Proof. exact child_safe. Qed.
 Print Assumptions C36_child_except_known.
 
-(* ... and if Pool.disconnect compares pids (read from the source: disconnect_checks_pid), the child may also call db.disconnect():
-   for EVERY sequence of child operations, disconnect() included, it touches only connection objects it created itself.
-   (As the source is now the flag is false: see Findings/C36.v, C36_refuted_child_disconnect.) *)
-Theorem C36_child_with_disconnect_if_pid_checked : forall p q parent_ops child_ops,
-  disconnect_checks_pid = true ->
+(* ... and db.disconnect() is no exception (whether Pool.disconnect compares pids is re-read from the source on every run and
+   required to be true): for EVERY sequence of child operations, disconnect() included, the child touches only connection objects
+   it created itself; an inherited pooled connection is parked in forked_connections, not closed *)
+Theorem C36_child_with_disconnect : forall p q parent_ops child_ops,
   let par := run (init p) parent_ops in
   ccon par = None ->
   Forall (own q) (log (run (fork par q) child_ops)).
-Proof. exact child_safe_with_disconnect. Qed.
-Print Assumptions C36_child_with_disconnect_if_pid_checked.
+Proof. exact child_safe_all_ops. Qed.
+Print Assumptions C36_child_with_disconnect.
+
+Theorem C36_child_disconnect_parks :
+  let par := run (init 1) [OBegin; OQuery; OEnd] in
+  log (run (fork par 2) [ODisconnect]) = [] /\ forked (run (fork par 2) [ODisconnect]) = [((1, 1), Some 1)]
+  /\ pcon (run (fork par 2) [ODisconnect]) = None.
+Proof. exact child_disconnect_parks. Qed.
+Print Assumptions C36_child_disconnect_parks.
 
 (* the parent, at any time (fork does not change it): touches only connection objects it created; what sits in its pool and in
    its live session is its own *)
